@@ -374,8 +374,9 @@ func c02R3(a *A, r *Roles, ar *Arms) {
 				a.viol(rule, key, w.posOf(s.instr()), "the transaction buffer is cleared in arm %q: buffered changes of an open transaction are lost", lab)
 			}
 		default:
-			_, isSl := s.val().(*ssa.Slice)
-			_, isMk := s.val().(*ssa.MakeSlice)
+			// a make, a literal, or what an in-package function returns when all its returns are one of those
+			isMk := freshSlice(s.val(), 0) && !isNilConst(strip(s.val()))
+			isSl := false
 			if r.Begin == nil && (isSl || isMk) && subset(as, onlyBegin) {
 				a.hold(rule, key, w.posOf(s.instr()), "BEGIN installs a fresh buffer")
 				installBlocks[s.block()] = true
